@@ -449,6 +449,12 @@ def _b_int(interp, args, kwargs):
 def _b_hash(interp, args, kwargs):
     interp.emit("nondet", what="hash", arg=args[0])
     v = args[0]
+    if isinstance(v, ExtObj) and v.kind.startswith("rdflib"):
+        from . import models_rdflib
+
+        r = models_rdflib.hash_of(interp, v)
+        if r is not MISSING:
+            return r
     if isinstance(v, Obj):
         m = interp.lookup_class_attr(v.cls, "__hash__")
         if m is not MISSING and m is not None:
